@@ -8,4 +8,5 @@ let () =
   | _ :: "recon" :: _ -> Cmd_recon.run ()
   | _ :: "session" :: rest -> Cmd_session.run rest
   | _ :: "gsession" :: _ -> Cmd_session.grun ()
+  | _ :: "lfdbt" :: rest -> Cmd_lfdbt.run rest
   | _ -> prerr_endline "usage: fvm <layout|...>"; exit 2
